@@ -29,6 +29,10 @@ void CDNS::Timestamp::add_time_offset(int64_t offset, uint64_t ticks_per_second)
 
     int64_t ticks = (m_secs * ticks_per_second) + m_ticks;
 
+    // A tick count beyond the signed range can't be combined with a signed offset
+    if (ticks < 0)
+        throw std::runtime_error("Adding offset to Timestamp would create invalid Timestamp!");
+
     // (-1 * offset would overflow for the smallest offset)
     if (offset < 0 && ticks + offset < 0)
         throw std::runtime_error("Adding offset to Timestamp would create invalid Timestamp!");
